@@ -17,7 +17,10 @@ import (
 
 	metav1 "k8s.io/apimachinery/pkg/apis/meta/v1"
 	"k8s.io/apimachinery/pkg/util/sets"
+	"k8s.io/apiserver/pkg/authentication/authenticator"
 	"k8s.io/apiserver/pkg/authentication/user"
+	"k8s.io/apiserver/pkg/authorization/authorizer"
+	genericapifilters "k8s.io/apiserver/pkg/endpoints/filters"
 	genericapirequest "k8s.io/apiserver/pkg/endpoints/request"
 	genericfilters "k8s.io/apiserver/pkg/server/filters"
 	"k8s.io/client-go/kubernetes/scheme"
@@ -25,18 +28,32 @@ import (
 
 	proxyv1alpha1 "github.com/kubewharf/kubegateway/pkg/apis/proxy/v1alpha1"
 	"github.com/kubewharf/kubegateway/pkg/clusters"
+	tokenwebhook "github.com/kubewharf/kubegateway/pkg/gateway/authentication/token/webhook"
+	authzwebhook "github.com/kubewharf/kubegateway/pkg/gateway/authorization/webhook"
 	"github.com/kubewharf/kubegateway/pkg/gateway/controllers"
 	gatewayfilters "github.com/kubewharf/kubegateway/pkg/gateway/endpoints/filters"
 	"github.com/kubewharf/kubegateway/pkg/gateway/endpoints/monitor"
 	gatewayrequest "github.com/kubewharf/kubegateway/pkg/gateway/endpoints/request"
 	"github.com/kubewharf/kubegateway/pkg/gateway/proxy/dispatcher"
+
+	"verifharness/rig"
 )
 
 const (
 	nStubs     = 3
 	chunkEvery = 20 * time.Millisecond
 	hdrRid     = "X-Verif-Rid"
+	hdrToken   = "X-Verif-Token" // the client's bearer token: the real TokenReview authenticator is asked about it
+	hdrImp     = "X-Verif-Imp"   // the user the client wants to impersonate: the real SubjectAccessReview authorizer is asked
 )
+
+// call is one request a stub upstream received, by kind of traffic.
+type call struct {
+	kind  string // proxy | tokenreview | sar  (health probes are counted separately)
+	token string // credential of the ClusterInfo object that sent it
+	op    int32  // index of the op of the history during which it arrived
+	rid   int    // proxied requests only
+}
 
 var (
 	// one-sided bounds: something that must happen has this long to happen (typical: a few ms)
@@ -58,6 +75,20 @@ type stub struct {
 	w       *world
 	mu      sync.Mutex
 	probes  map[string]int // /healthz requests by bearer token (= ClusterInfo object)
+	calls   []call
+}
+
+func (s *stub) record(c call) {
+	c.op = atomic.LoadInt32(&s.w.curOp)
+	s.mu.Lock()
+	s.calls = append(s.calls, c)
+	s.mu.Unlock()
+}
+
+func (s *stub) callsSince(n int) []call {
+	s.mu.Lock()
+	defer s.mu.Unlock()
+	return append([]call{}, s.calls[n:]...)
 }
 
 func bearer(r *http.Request) string {
@@ -78,12 +109,30 @@ func (s *stub) ServeHTTP(rw http.ResponseWriter, r *http.Request) {
 		}
 		return
 	}
+	switch r.URL.Path {
+	case "/apis/authentication.k8s.io/v1/tokenreviews":
+		// the gateway's TokenReview webhook (ClientFor -> PickOne -> this endpoint's clientset)
+		s.record(call{kind: "tokenreview", token: bearer(r)})
+		io.Copy(io.Discard, r.Body)
+		rw.Header().Set("Content-Type", "application/json")
+		rw.WriteHeader(201)
+		io.WriteString(rw, `{"kind":"TokenReview","apiVersion":"authentication.k8s.io/v1","status":{"authenticated":true,"user":{"username":"alice","groups":["system:authenticated"]}}}`)
+		return
+	case "/apis/authorization.k8s.io/v1/subjectaccessreviews":
+		s.record(call{kind: "sar", token: bearer(r)})
+		io.Copy(io.Discard, r.Body)
+		rw.Header().Set("Content-Type", "application/json")
+		rw.WriteHeader(201)
+		io.WriteString(rw, `{"kind":"SubjectAccessReview","apiVersion":"authorization.k8s.io/v1","status":{"allowed":true}}`)
+		return
+	}
 	rid, _ := strconv.Atoi(r.Header.Get(hdrRid))
 	rc := s.w.req(rid)
 	if rc == nil {
 		rw.WriteHeader(418)
 		return
 	}
+	s.record(call{kind: "proxy", token: bearer(r), rid: rid})
 	rc.upstreamSaw(s.idx, bearer(r))
 	ctx := r.Context()
 	if rc.hold == "headers" {
@@ -128,10 +177,13 @@ func (s *stub) probeCount(token string) int {
 // one scripted request
 
 type reqCtl struct {
-	rid   int
-	host  string
-	hold  string // prepick | preconnect | headers | stream
-	watch bool
+	rid     int
+	host    string
+	hold    string // preauth | prepick | preconnect | headers | stream
+	watch   bool
+	token   string // client bearer token ("" = none): asks the TokenReview webhook unless the token cache is warm
+	imp     string // impersonated user ("" = none): asks the SubjectAccessReview webhook unless the decision cache is warm
+	startOp int32
 
 	releaseCh chan struct{}
 	finishCh  chan struct{}
@@ -190,7 +242,7 @@ func (rc *reqCtl) upstreamCtxDone() {
 func (rc *reqCtl) snapshot() reqCtl {
 	rc.mu.Lock()
 	defer rc.mu.Unlock()
-	return reqCtl{rid: rc.rid, host: rc.host, hold: rc.hold, watch: rc.watch, startedAt: rc.startedAt, reachedPrepick: rc.reachedPrepick,
+	return reqCtl{rid: rc.rid, host: rc.host, hold: rc.hold, watch: rc.watch, token: rc.token, imp: rc.imp, startOp: rc.startOp, startedAt: rc.startedAt, reachedPrepick: rc.reachedPrepick,
 		picked: rc.picked, pickedCtx: rc.pickedCtx, upSeen: rc.upSeen, upIdx: rc.upIdx, upToken: rc.upToken, upDone: rc.upDone, upDoneAt: rc.upDoneAt,
 		status: rc.status, chunks: rc.chunks, lastChunk: rc.lastChunk, completed: rc.completed, completedAt: rc.completedAt, clean: rc.clean,
 		errStr: rc.errStr, body: rc.body, released: rc.released, finishAsked: rc.finishAsked, pickEmitted: rc.pickEmitted,
@@ -255,6 +307,10 @@ type world struct {
 	mu   sync.Mutex
 	reqs map[int]*reqCtl
 
+	curOp     int32 // index of the op being executed / checked (read by the stubs when traffic arrives)
+	tokenAuth authenticator.Token
+	sarAuth   authorizer.Authorizer
+
 	cls    map[int]*clObj                   // by model oid
 	clPtr  map[*clusters.ClusterInfo]*clObj // by pointer
 	eps    map[int]*epObj                   // by model endpoint id
@@ -282,6 +338,11 @@ func newWorld() *world {
 	w.indexer = cache.NewIndexer(cache.MetaNamespaceKeyFunc, cache.Indexers{})
 	w.ctrl = controllers.VerifC15NewController(w.indexer)
 
+	// the gateway's own multi-cluster authentication / authorization webhooks, with their real caches: both go
+	// ClientFor(host) -> PickOne -> the endpoint's clientset -> TokenReview / SubjectAccessReview at the upstream
+	w.tokenAuth = tokenwebhook.NewMultiClusterTokenReviewAuthenticator(w.ctrl, 30*time.Second, 0, nil)
+	w.sarAuth = authzwebhook.NewMultiClusterSubjectAccessReviewAuthorizer(w.ctrl, 30*time.Second, 30*time.Second)
+
 	longRunning := genericfilters.BasicLongRunningRequestCheck(sets.NewString("watch", "proxy"), sets.NewString("attach", "exec", "proxy", "log", "portforward"))
 	resolver := &genericapirequest.RequestInfoFactory{APIPrefixes: sets.NewString("api", "apis"), GrouplessAPIPrefixes: sets.NewString("api")}
 
@@ -289,20 +350,39 @@ func newWorld() *world {
 	var handler http.Handler = dispatcher.NewDispatcher(w.ctrl, false)
 	authenticated := handler
 	handler = http.HandlerFunc(func(rw http.ResponseWriter, req *http.Request) {
-		// stands in for authentication (a fixed user) and is the "cluster resolved, endpoint not picked yet" hold point
+		// the authentication / impersonation stage and the "cluster resolved, endpoint not picked yet" hold points.
+		// The REAL TokenReview authenticator and SubjectAccessReview authorizer are asked (that is the traffic under
+		// observation); their verdict is not used, the request goes on as alice either way, so that the request's
+		// further life is the same with and without credentials.
 		rid, _ := strconv.Atoi(req.Header.Get(hdrRid))
-		if rc := w.req(rid); rc != nil {
-			rc.mu.Lock()
-			rc.reachedPrepick = true
-			rc.mu.Unlock()
-			if rc.hold == "prepick" {
+		rc := w.req(rid)
+		hold := func(point string) {
+			if rc != nil && rc.hold == point {
 				select {
 				case <-rc.releaseCh:
 				case <-req.Context().Done():
 				}
 			}
 		}
+		if rc != nil {
+			rc.mu.Lock()
+			rc.reachedPrepick = true
+			rc.mu.Unlock()
+		}
+		hold("preauth") // mid-authentication: resolved, credentials not checked yet
 		ctx := genericapirequest.WithUser(req.Context(), &user.DefaultInfo{Name: "alice", Groups: []string{user.AllAuthenticated}})
+		if tok := req.Header.Get(hdrToken); tok != "" {
+			rig.Recover(func() { w.tokenAuth.AuthenticateToken(ctx, tok) })
+		}
+		if imp := req.Header.Get(hdrImp); imp != "" {
+			ictx := genericapirequest.WithUser(req.Context(), &user.DefaultInfo{Name: imp, Groups: []string{user.AllAuthenticated}})
+			if attrs, err := genericapifilters.GetAuthorizerAttributes(ictx); err == nil {
+				rig.Recover(func() { w.sarAuth.Authorize(ictx, attrs) })
+			}
+		}
+		req.Header.Del(hdrToken)
+		req.Header.Del(hdrImp)
+		hold("prepick")
 		authenticated.ServeHTTP(rw, req.WithContext(ctx))
 	})
 	handler = gatewayfilters.WithRequestReaderWriterWrapper(handler, throughput)
@@ -385,7 +465,8 @@ func (w *world) start(op Op) *reqCtl { return w.startAfter(op, 0, false) }
 
 // startAfter: the client sends its request after the given delay (storm requests race with the next op).
 func (w *world) startAfter(op Op, delay time.Duration, storm bool) *reqCtl {
-	rc := &reqCtl{rid: op.Rid, host: op.Host, hold: op.Hold, watch: op.Watch, releaseCh: make(chan struct{}), finishCh: make(chan struct{}), startedAt: time.Now(), storm: storm}
+	rc := &reqCtl{rid: op.Rid, host: op.Host, hold: op.Hold, watch: op.Watch, token: op.Token, imp: op.Imp, startOp: atomic.LoadInt32(&w.curOp),
+		releaseCh: make(chan struct{}), finishCh: make(chan struct{}), startedAt: time.Now(), storm: storm}
 	if rc.hold == "stream" || rc.hold == "" {
 		rc.hold = "stream"
 		rc.released = true
@@ -407,6 +488,12 @@ func (w *world) startAfter(op Op, delay time.Duration, storm bool) *reqCtl {
 		req, _ := http.NewRequest("GET", w.gw.URL+path, nil)
 		req.Host = rc.host
 		req.Header.Set(hdrRid, strconv.Itoa(rc.rid))
+		if rc.token != "" {
+			req.Header.Set(hdrToken, rc.token)
+		}
+		if rc.imp != "" {
+			req.Header.Set(hdrImp, rc.imp)
+		}
 		done := func(code int, clean bool, es string, body []byte) {
 			rc.mu.Lock()
 			rc.completed, rc.completedAt, rc.clean, rc.errStr, rc.body = true, time.Now(), clean, es, string(body)
